@@ -267,9 +267,14 @@ def functions_encoded(rec):
 
 
 # ----------------------------------------------------------------------------- replay
+NATIVE_FEATURES = []
+
+
 def build_native(release):
     td = os.path.join(BUILD, "native")
     cmd = ["cargo", "build", "--offline", "--target-dir", td, "--bin", "replay"]
+    if NATIVE_FEATURES:
+        cmd += ["--features", ",".join(NATIVE_FEATURES)]
     if release:
         cmd.append("--release")
     env = dict(BASE_ENV)
@@ -465,6 +470,8 @@ def run_property(prop, tier, seed, only, jobs_override):
     timeout_s = tcfg.get("timeout_s", 900 if tier == "quick" else 3600)
     mem_kb = tcfg.get("mem_gb", 12 if tier == "quick" else 30) * 1024 * 1024
     extra = list(cfg.get("kani_args", ["--no-assertion-reach-checks"]))
+    if "--features" in extra:
+        NATIVE_FEATURES[:] = extra[extra.index("--features") + 1].split(",")
     variants = cfg.get("variants", [dict(name="default", env={}, target="kani")])
     all_recs = []
     cmds = []
